@@ -37,3 +37,25 @@ func (s *Store) VerifReadState() VerifReadState {
 		StrongReadTerm:     s.strongReadTerm.Load(),
 	}
 }
+
+// VerifAbandon releases the files a failed Open left open (log store,
+// snapshot store), standing in for the exit of the process, so that the
+// harness can start the node again in the same test process. It does nothing
+// if the Store is open.
+func (s *Store) VerifAbandon() {
+	if s.open.Is() {
+		return
+	}
+	if s.db != nil {
+		s.db.Close()
+	}
+	if s.dechunkManager != nil {
+		s.dechunkManager.Close()
+	}
+	if s.snapshotStore != nil {
+		s.snapshotStore.Close()
+	}
+	if s.boltStore != nil {
+		s.boltStore.Close()
+	}
+}
